@@ -1,0 +1,141 @@
+//go:build verif
+
+// Contracts for package pubsub, read by /verif/govc. This file contains
+// comments only; it is compiled (to nothing) only with -tags verif.
+package pubsub
+
+// ---------------------------------------------------------------------------
+// queueLimitTracker: abstract view of the three tracker implementations.
+// The spec functions dispatch on the dynamic type, so no ghost state is needed.
+// ---------------------------------------------------------------------------
+
+//@ pred isNoLimit(t ref) = typeis(t, "*queueNoLimitTrackerImpl")
+//@ pred isHard(t ref) = typeis(t, "*queueHardLimitTracker")
+//@ pred isQuota(t ref) = typeis(t, "*queueLimitTrackerImpl")
+//@ pred nl(t ref) ref = cast(t, "*queueNoLimitTrackerImpl")
+//@ pred hd(t ref) ref = cast(t, "*queueHardLimitTracker")
+//@ pred qt(t ref) ref = cast(t, "*queueLimitTrackerImpl")
+
+//@ pred tlen(t ref) int = isNoLimit(t) ? nl(t).length : (isHard(t) ? hd(t).length : qt(t).length)
+//@ pred thard(t ref) int = isHard(t) ? hd(t).capacity : qt(t).hardLimit
+//@ pred tknown(t ref) = isNoLimit(t) || isHard(t) || isQuota(t)
+
+// tinv: representation invariant of a tracker. "Len never exceeds the hard limit".
+//@ pred tinv(t ref) = tknown(t) && tlen(t) >= 0
+//@ |  && (isHard(t) ==> hd(t).length <= hd(t).capacity)
+//@ |  && (isQuota(t) ==> 1 <= qt(t).softQuota && qt(t).softQuota <= qt(t).hardLimit && qt(t).length <= qt(t).softQuota && qt(t).credit >= 0.0)
+
+// admits: the sequential limit / credit rule of the property statement:
+// an Add is refused at the hard limit (ErrQueueFull) and above the soft quota
+// without burst credit (ErrQueueNoCredit).
+//@ pred admits(t ref) = isNoLimit(t) || (isHard(t) && hd(t).length < hd(t).capacity)
+//@ |  || (isQuota(t) && !(qt(t).length >= qt(t).softQuota && (qt(t).length == qt(t).hardLimit || qt(t).credit < 1.0)))
+//@ pred why(t ref) ref = isHard(t) ? ErrQueueFull : (qt(t).length == qt(t).hardLimit ? ErrQueueFull : ErrQueueNoCredit)
+
+//@ pred tunchanged(t ref) = nl(t).length == old(nl(t).length) && hd(t).length == old(hd(t).length) && hd(t).capacity == old(hd(t).capacity)
+//@ |  && qt(t).length == old(qt(t).length) && qt(t).softQuota == old(qt(t).softQuota) && qt(t).credit == old(qt(t).credit) && qt(t).hardLimit == old(qt(t).hardLimit)
+
+//@ modset tfields(t) = cast(t, "*queueNoLimitTrackerImpl").length, cast(t, "*queueHardLimitTracker").length, cast(t, "*queueLimitTrackerImpl").length, cast(t, "*queueLimitTrackerImpl").softQuota, cast(t, "*queueLimitTrackerImpl").credit
+
+//@ iface queueLimitTracker.len
+//@   requires tknown(self)
+//@   ensures result == tlen(self)
+
+//@ iface queueLimitTracker.cap
+//@   requires tknown(self)
+//@   ensures isHard(self) ==> result == hd(self).capacity
+//@   ensures isQuota(self) ==> result == qt(self).softQuota
+//@   ensures isNoLimit(self) ==> result == 9223372036854775807
+
+//@ iface queueLimitTracker.add
+//@   requires tinv(self)
+//@   modifies tfields(self)
+//@   ensures tinv(self)
+//@   ensures admitted: old(admits(self)) ==> result == nil && tlen(self) == old(tlen(self)) + 1
+//@   ensures refused: !old(admits(self)) ==> result == old(why(self)) && result != nil && tunchanged(self)
+
+//@ iface queueLimitTracker.remove
+//@   requires tinv(self) && tlen(self) > 0
+//@   modifies tfields(self)
+//@   ensures tinv(self)
+//@   ensures tlen(self) == old(tlen(self)) - 1
+
+//@ func (*queueNoLimitTrackerImpl).len
+//@   props C05 C06
+//@   implements queueLimitTracker.len
+//@ func (*queueNoLimitTrackerImpl).cap
+//@   props C05 C06
+//@   implements queueLimitTracker.cap
+//@ func (*queueNoLimitTrackerImpl).add
+//@   props C05 C06
+//@   implements queueLimitTracker.add
+//@ func (*queueNoLimitTrackerImpl).remove
+//@   props C05 C06
+//@   implements queueLimitTracker.remove
+
+//@ func (*queueHardLimitTracker).len
+//@   props C05 C06
+//@   implements queueLimitTracker.len
+//@ func (*queueHardLimitTracker).cap
+//@   props C05 C06
+//@   implements queueLimitTracker.cap
+//@ func (*queueHardLimitTracker).add
+//@   props C05 C06
+//@   implements queueLimitTracker.add
+//@ func (*queueHardLimitTracker).remove
+//@   props C05 C06
+//@   implements queueLimitTracker.remove
+
+//@ func (*queueLimitTrackerImpl).len
+//@   props C05 C06
+//@   implements queueLimitTracker.len
+//@ func (*queueLimitTrackerImpl).cap
+//@   props C05 C06
+//@   implements queueLimitTracker.cap
+//@ func (*queueLimitTrackerImpl).add
+//@   props C05 C06
+//@   implements queueLimitTracker.add
+//@ func (*queueLimitTrackerImpl).remove
+//@   props C05 C06
+//@   implements queueLimitTracker.remove
+
+
+// ---------------------------------------------------------------------------
+// Queue: singly linked list front(sentinel) -> view[0] -> ... -> view[n-1] = back
+// ---------------------------------------------------------------------------
+
+//@ ghost Queue.view seq
+
+//@ pred qinv(q *Queue) = q != nil && q.front != nil && allocated(q.front) && len(q.view) >= 0
+//@ |  && q.tracker != nil && tinv(q.tracker) && tlen(q.tracker) == len(q.view)
+//@ |  && (len(q.view) == 0 ==> q.front.link == nil && q.back == q.front)
+//@ |  && (len(q.view) > 0 ==> q.front.link == q.view[0] && q.back == q.view[len(q.view) - 1])
+//@ |  && (forall i: int :: 0 <= i && i < len(q.view) - 1 ==> cast(q.view[i], "*entry").link == q.view[i + 1])
+//@ |  && (forall i: int :: 0 <= i && i < len(q.view) ==> allocated(q.view[i]) && q.view[i] != q.front)
+//@ |  && (forall i: int, j: int :: 0 <= i && i < j && j < len(q.view) ==> q.view[i] != q.view[j])
+//@ |  && q.back.link == nil && q.nempty != nil && q.nupdates != nil
+
+//@ func makeQueue
+//@   props C05
+//@   requires tracker != nil && tinv(tracker) && tlen(tracker) == 0
+//@   ensures qinv(result) && fresh(result) && len(result.view) == 0 && result.closed == false && result.tracker == tracker
+//@   ghostset result.view = []
+
+//@ func (*Queue).doAdd
+//@   props C05
+//@   requires qinv(q)
+//@   modifies q.back, q.back.link, q.view, tfields(q.tracker)
+//@   ghostset q.view = (result == nil ? old(q.view) + [q.back] : old(q.view))
+//@   ensures qinv(q)
+//@   ensures closed: old(q.closed) ==> result == ErrQueueClosed && q.view == old(q.view) && tunchanged(q.tracker)
+//@   ensures refused: !old(q.closed) && !old(admits(q.tracker)) ==> result == old(why(q.tracker)) && result != nil && q.view == old(q.view) && tunchanged(q.tracker)
+//@   ensures added: !old(q.closed) && old(admits(q.tracker)) ==> result == nil && q.view == old(q.view) + [q.back] && cast(q.back, "*entry").item == item && fresh(q.back)
+
+//@ func (*Queue).popFront
+//@   props C05
+//@   requires qinv(q) && len(q.view) > 0
+//@   modifies q.back, q.front.link, q.view, tfields(q.tracker)
+//@   ghostset q.view = old(q.view)[1:]
+//@   ensures qinv(q)
+//@   ensures q.view == old(q.view)[1:]
+//@   ensures result == cast(old(q.view[0]), "*entry").item
